@@ -4,7 +4,7 @@
 # /repo itself is left alone. Appends to seeded/RESULTS.tsv (truncates it when run without ids).
 cd /verif
 J=3; if [ "$1" = "-j" ]; then J=$2; shift 2; fi
-declare -A EXTRA=( [C12-m14]=C14 [C05-m13]=C06 [C08-m14]=C17 [C11-m14]=C01 [C02-m5]=C18 [C12-m11]=C14 [C01-m6]=C04 [C06-m6]=C19 [C12-m6]=C15 [C05-m6]=C13 [C04-m6]=C03 [C10-m2]=C06 [C18-m2]=C15 [C03-m2]=C15 [C05-m3]=C13 [C05-m4]=C02 [C06-m8]=C13 [C09-m8]=C01 [C13-m7]=C19 [C15-m7]=C18 [C02-m7]=C19 [C02-m9]=C19 [C05-m10]=C06 [C05-m1]=C13 )
+declare -A EXTRA=( [C12-m15]=C14 [C12-m14]=C14 [C05-m13]=C06 [C08-m14]=C17 [C11-m14]=C01 [C02-m5]=C18 [C12-m11]=C14 [C01-m6]=C04 [C06-m6]=C19 [C12-m6]=C15 [C05-m6]=C13 [C04-m6]=C03 [C10-m2]=C06 [C18-m2]=C15 [C03-m2]=C15 [C05-m3]=C13 [C05-m4]=C02 [C06-m8]=C13 [C09-m8]=C01 [C13-m7]=C19 [C15-m7]=C18 [C02-m7]=C19 [C02-m9]=C19 [C05-m10]=C06 [C05-m1]=C13 )
 ids=${@:-$(ls seeded | grep -- '-m')}
 out=seeded/RESULTS.tsv
 [ $# -eq 0 ] && : > $out
